@@ -292,6 +292,9 @@ func judge(o outcome) ([]finding, caseStats) {
 	if o.buildErr != nil {
 		return []finding{{"internal", "model", o.buildErr.Error()}}, caseStats{}
 	}
+	if o.res.TimedOut {
+		return []finding{{"internal", "hang-guard", "the plugin did not answer within 60 s"}}, caseStats{}
+	}
 	if o.c.Kind == "invalid-opt" {
 		return checkInvalid(o.c, o.res)
 	}
